@@ -1,25 +1,41 @@
 #!/usr/bin/env python3
-"""Apply each seeded change to /repo, run the registered checks, undo. Prints/records which checks fire."""
-import subprocess, sys, os, json
+"""Apply each seeded change to a copy of the repository, run the checks, record which fire.
+
+  seedmatrix.py <seeds|all> [<checks>] [--workers N]
+
+With --workers N > 1 it creates N private copies of /verif (ROOT) and of the repository under
+$TMPDIR (default /tmp/seedmx) and spreads the seeds over them. Without it, it works in place on
+VERIF_REPO (default /repo) — /repo must then be clean and is restored afterwards."""
+import subprocess, sys, os, json, shutil, threading
 ROOT = os.path.dirname(os.path.dirname(os.path.abspath(__file__)))
 sys.path.insert(0, os.path.join(ROOT, 'tools'))
 import props as P
 REPO = os.environ.get('VERIF_REPO', '/repo')
-seeds = sys.argv[1].split(',') if len(sys.argv) > 1 and sys.argv[1] != 'all' else sorted(os.listdir(os.path.join(ROOT, 'seeded')))
-checks = sys.argv[2].split(',') if len(sys.argv) > 2 else sorted(P.PROPS)
-assert subprocess.run(['git', '-C', REPO, 'status', '--porcelain'], capture_output=True, text=True).stdout.strip() == '', '/repo not clean'
+args = [a for a in sys.argv[1:] if not a.startswith('--')]
+workers = 1
+if '--workers' in sys.argv:
+    workers = int(sys.argv[sys.argv.index('--workers') + 1])
+    args = [a for a in args if a != str(workers)]
+seeds = args[0].split(',') if args and args[0] != 'all' else sorted(os.listdir(os.path.join(ROOT, 'seeded')))
+checks = args[1].split(',') if len(args) > 1 else sorted(P.PROPS)
 out = {}
-for s in seeds:
+lock = threading.Lock()
+
+
+def run_seed(root, repo, build, s):
     patch = os.path.join(ROOT, 'seeded', s, 'patch.diff')
     if not os.path.exists(patch):
-        continue
-    r = subprocess.run(['git', '-C', REPO, 'apply', patch], capture_output=True, text=True)
+        return
+    r = subprocess.run(['git', '-C', repo, 'apply', patch], capture_output=True, text=True)
     if r.returncode != 0:
-        print(s, 'PATCH DOES NOT APPLY', r.stderr[:200]); continue
+        with lock:
+            print(s, 'PATCH DOES NOT APPLY', r.stderr[:200], flush=True)
+        return
     row = {}
+    env = dict(os.environ, VERIF_REPO=repo, VERIF_BUILD=build)
     try:
         for c in checks:
-            q = subprocess.run([os.path.join(ROOT, 'check'), c], capture_output=True, text=True, cwd=ROOT)
+            q = subprocess.run([os.path.join(root, 'check'), c], capture_output=True, text=True, cwd=root, env=env)
             v = [l for l in q.stdout.split('\n') if l.startswith('VIOLATION')]
             if q.returncode == 0:
                 row[c] = 'ok'
@@ -30,10 +46,34 @@ for s in seeds:
             else:
                 row[c] = 'ERR:' + (q.stdout + q.stderr)[-200:].replace('\n', ' ')
     finally:
-        subprocess.run(['git', '-C', REPO, 'checkout', '--', '.'])
-    out[s] = row
-    print(s, ' '.join('%s=%s' % (k, v) for k, v in row.items() if v != 'ok') or 'MISSED by all of ' + ','.join(checks), flush=True)
-json.dump(out, open(os.path.join(os.environ.get('VERIF_BUILD', os.path.join(ROOT, 'build')), 'seedmatrix.json'), 'w'), indent=1)
-# restore unchanged-tree evidence
-for c in checks:
-    subprocess.run([os.path.join(ROOT, 'check'), c], capture_output=True, text=True, cwd=ROOT)
+        subprocess.run(['git', '-C', repo, 'checkout', '--', '.'])
+    with lock:
+        out[s] = row
+        print(s, ' '.join('%s=%s' % (k, v) for k, v in row.items() if v != 'ok') or 'MISSED by all of ' + ','.join(checks), flush=True)
+
+
+if workers <= 1:
+    assert subprocess.run(['git', '-C', REPO, 'status', '--porcelain'], capture_output=True, text=True).stdout.strip() == '', 'repo not clean'
+    for s in seeds:
+        run_seed(ROOT, REPO, os.environ.get('VERIF_BUILD', os.path.join(ROOT, 'build')), s)
+else:
+    base = os.environ.get('TMPDIR', '/tmp') + '/seedmx'
+    shutil.rmtree(base, ignore_errors=True)
+    os.makedirs(base)
+    ws = []
+    for w in range(workers):
+        wr, wrepo = '%s/verif%d' % (base, w), '%s/repo%d' % (base, w)
+        subprocess.check_call(['rsync', '-a', '--exclude', 'build/run', '--exclude', 'evidence/replay', '--exclude', '.git', ROOT + '/', wr + '/'])
+        subprocess.check_call(['git', 'clone', '-q', REPO, wrepo])
+        os.makedirs(wr + '/build', exist_ok=True)
+        ws.append((wr, wrepo, wr + '/build'))
+    def worker(i):
+        for s in seeds[i::workers]:
+            run_seed(*ws[i], s)
+    ts = [threading.Thread(target=worker, args=(i,)) for i in range(workers)]
+    [t.start() for t in ts]
+    [t.join() for t in ts]
+    shutil.rmtree(base, ignore_errors=True)
+dest = os.path.join(os.environ.get('VERIF_BUILD', os.path.join(ROOT, 'build')), 'seedmatrix.json')
+os.makedirs(os.path.dirname(dest), exist_ok=True)
+json.dump(out, open(dest, 'w'), indent=1, sort_keys=True)
